@@ -48,11 +48,11 @@ impl Entry {
         match self.n {
             1 => vec![arr1(&[1.0])],
             2 => {
-                let xs: &[f64] = tier.pick(&[0.3][..], &[0.02, 0.3, 0.5, 0.98][..]);
+                let xs: &[f64] = tier.pick(&[0.3][..], &[1e-6, 0.02, 0.1, 0.3, 0.5, 0.7, 0.9, 0.98, 1.0 - 1e-6][..]);
                 xs.iter().map(|&x| arr1(&[x, 1.0 - x])).collect()
             }
             3 => {
-                let v = vec![arr1(&[0.3, 0.5, 0.2]), arr1(&[0.9, 0.05, 0.05]), arr1(&[0.05, 0.05, 0.9])];
+                let v = vec![arr1(&[0.3, 0.5, 0.2]), arr1(&[0.9, 0.05, 0.05]), arr1(&[0.05, 0.05, 0.9]), arr1(&[0.05, 0.9, 0.05]), arr1(&[1.0 / 3.0, 1.0 / 3.0, 1.0 / 3.0]), arr1(&[0.6, 0.399999, 1e-6]), arr1(&[0.2, 0.2, 0.6])];
                 match tier {
                     Tier::Quick => v[..1].to_vec(),
                     Tier::Thorough => v,
